@@ -16,6 +16,7 @@ structure Desc where
   kind : ItemKind
   name : String          -- `descriptor.name`, as written (the loop does not lower-case it)
   important : Bool
+  noTokens : Bool := false   -- `not remove_whitespace(descriptor.value)`: an empty value
   id : Nat
   deriving Repr, BEq, DecidableEq
 
@@ -27,6 +28,7 @@ def knownDescriptors (rule : String) : List String := (Gen.DescriptorsC07.descri
 def preprocessDescriptorOne {β : Type} (rule : String) (validate : String → Desc → R (Option β)) (d : Desc) :
     Except Fail (List (String × β)) :=
   if d.kind ≠ .declaration || d.important then pure []
+  else if d.noTokens then pure []            -- `if not tokens: raise InvalidValues('no value')` (fix: d71ddd0)
   else if Gen.DescriptorsC07.notPrintMedia.contains d.name then pure []        -- `continue` inside the try
   else if !(knownDescriptors rule).contains d.name then pure []                -- 'descriptor not supported'
   else match validate d.name d with
